@@ -1,7 +1,7 @@
 """Obligations on src/filter/bloom.rs — C17 / C10 (fixed hasher keys)."""
 import re
 import z3
-from .symex import State, Sym, Obj, VecV, Ref, Unsupported, fresh_name
+from .symex import State, Sym, Obj, VecV, Ref, UNIT, Unsupported, fresh_name
 from . import pearl as P
 from . import summaries as S
 from .pearl import BV64
@@ -324,3 +324,71 @@ def bloom_ctor_invariant(crate):
                 return P.finish(ex, res, [])
             P.cover(ex, res, o, some, "saved")
     return P.finish(ex, res, ["read back, bit count not a multiple of 64", "buffer rejected", "created", "saved"])
+
+
+def bloom_merge_sound(crate):
+    """C10: Bloom::checked_add_assign answers true - "every key of `other` is covered by `self` now" - only if both filters
+    have the same number of hashers, both buffers are present (neither is off-loaded) with the same length, and
+    AtomicBitVec::or_with(self.inner, other.inner) was executed (c10_bitvec_or_with_union decides what or_with does)."""
+    res = P.ObResult("bloom_merge_sound")
+    fn = crate.method("Bloom", "checked_add_assign")
+    res.functions = ["Bloom::checked_add_assign (inherent)"]
+    res.bounds = "one call; buffers present or off-loaded, arbitrary lengths and hasher counts (<= 2 modelled hashers each); or_with opaque (event)"
+    from . import mirparse as MP
+    MP.parse_body(fn)
+    ex = P.mk_executor(crate, cap=3, loop_bound=4, inline=[], havoc=[r"^Bloom::acquire_snapshot_protection_ordered$"])
+    st = State()
+    blooms, lens, present, nhs = [], [], [], []
+    for tag in ("self", "other"):
+        b = Obj("filter::bloom::Bloom")
+        inner = Obj("std::option::Option<filter::atomic_bitvec::AtomicBitVec>")
+        pr = z3.Bool("%s_buffer_present" % tag)
+        inner.discr = Sym(z3.If(pr, BV64(1), BV64(0)), "isize")
+        bv = Obj("filter::atomic_bitvec::AtomicBitVec")
+        ln = z3.BitVec("%s_len" % tag, 64)
+        bv.fields[("g", "len")] = Sym(ln, "usize")
+        bv.fields[("g", "who")] = Sym(BV64(1 if tag == "self" else 2), "u64")
+        inner.fields[("Some", 0)] = bv
+        b.fields[(None, crate.field_index("Bloom", "inner"))] = inner
+        nh = z3.BitVec("%s_hashers" % tag, 64)
+        st.pc.append(z3.ULE(nh, BV64(2)))
+        hv = VecV("filter::ahash::fallback_hash::AHasher", 2, Sym(nh, "usize"), [Obj("filter::ahash::fallback_hash::AHasher"), Obj("filter::ahash::fallback_hash::AHasher")])
+        b.fields[(None, crate.field_index("Bloom", "hashers"))] = Ref(st.new_cell(hv), (), True, "Box<[filter::ahash::fallback_hash::AHasher]>")
+        b.fields[(None, crate.field_index("Bloom", "snapshot_protector"))] = Obj("std::sync::RwLock<()>")
+        blooms.append(st.new_cell(b)); lens.append(ln); present.append(pr); nhs.append(nh)
+
+    def call_hook(ex_, st_, cname, args, dty):
+        if cname == "AtomicBitVec::len":
+            v = S.deref_val(ex_, st_, args[0])
+            return [(Sym(v.fields[("g", "len")].t, "usize"), None)]
+        if cname == "AtomicBitVec::or_with":
+            a, b_ = S.deref_val(ex_, st_, args[0]), S.deref_val(ex_, st_, args[1])
+            st_.events.append(("or_with", cname, [a.fields.get(("g", "who")), b_.fields.get(("g", "who"))], None))
+            r = Obj(dty); r.discr = Sym(BV64(0), "isize"); r.fields[("Ok", 0)] = UNIT
+            return [(r, None)]
+        return None
+    ex.call_hook = call_hook
+    ex.push_frame(st, fn, [Ref(blooms[0], (), True, "&mut filter::bloom::Bloom"), Ref(blooms[1], (), False, "&filter::bloom::Bloom")], None, None)
+    outs = ex.run(st)
+    res.paths = len(outs)
+    for o in outs:
+        if o.status in ("infeasible", "unwind"):
+            continue
+        if o.status != "returned":
+            if not P.prove(ex, res, o, z3.BoolVal(False), "no panic (%s)" % o.note):
+                return P.finish(ex, res, [])
+            continue
+        r = o.result.t
+        ors = [e for e in o.events if e[0] == "or_with"]
+        good_or = len(ors) == 1 and ors[0][2][0] is not None and ors[0][2][1] is not None and \
+            z3.is_true(z3.simplify(z3.And(ors[0][2][0].t == BV64(1), ors[0][2][1].t == BV64(2))))
+        cond = z3.And(nhs[0] == nhs[1], present[0], present[1], lens[0] == lens[1], z3.BoolVal(good_or))
+        if not P.prove(ex, res, o, z3.Implies(r, cond), "true only if hasher counts agree, both buffers are present with equal length, and self |= other ran"):
+            return P.finish(ex, res, [])
+        if ors and not good_or:
+            res.status = "violated"; res.detail = "or_with applied to the wrong operands / more than once"; return P.finish(ex, res, [])
+        P.cover(ex, res, o, r, "merged")
+        P.cover(ex, res, o, z3.And(z3.Not(r), z3.Not(present[1])), "refused: other is off-loaded")
+        P.cover(ex, res, o, z3.And(z3.Not(r), nhs[0] != nhs[1]), "refused: different hashers")
+        P.cover(ex, res, o, z3.And(z3.Not(r), present[0], present[1], nhs[0] == nhs[1], lens[0] != lens[1]), "refused: different lengths")
+    return P.finish(ex, res, ["merged", "refused: other is off-loaded", "refused: different hashers", "refused: different lengths"])
